@@ -4,6 +4,7 @@ import (
 	"reflect"
 
 	"github.com/karagenc/socket.io-go/internal/sync"
+	"github.com/karagenc/socket.io-go/internal/vhook"
 
 	"github.com/karagenc/socket.io-go/parser"
 )
@@ -66,6 +67,7 @@ func (pq *clientPacketQueue) addToQueue(header *parser.PacketHeader, v []any) {
 			if tryCount > pq.socket.config.Retries {
 				pq.debug.Log("Packet with ID", packet.id, "discarded after", tryCount)
 				pq.mu.Lock()
+				vhook.Event("rq.drop", "q", pq, "id", int(packet.id), "err", true, "tries", tryCount, "len", len(pq.queuedPackets))
 				pq.queuedPackets = pq.queuedPackets[1:]
 				pq.mu.Unlock()
 				if haveAck {
@@ -75,6 +77,7 @@ func (pq *clientPacketQueue) addToQueue(header *parser.PacketHeader, v []any) {
 		} else {
 			pq.debug.Log("Packet with ID", packet.id, "successfully sent")
 			pq.mu.Lock()
+			vhook.Event("rq.drop", "q", pq, "id", int(packet.id), "err", false, "tries", 0, "len", len(pq.queuedPackets))
 			pq.queuedPackets = pq.queuedPackets[1:]
 			pq.mu.Unlock()
 			if haveAck {
@@ -106,6 +109,7 @@ func (pq *clientPacketQueue) addToQueue(header *parser.PacketHeader, v []any) {
 
 	pq.mu.Lock()
 	pq.queuedPackets = append(pq.queuedPackets, packet)
+	vhook.Event("rq.add", "q", pq, "id", int(packet.id), "len", len(pq.queuedPackets))
 	pq.mu.Unlock()
 	pq.drainQueue(false)
 }
@@ -131,6 +135,7 @@ func (pq *clientPacketQueue) drainQueue(force bool) {
 	tryCount := packet.tryCount
 	packet.mu.Unlock()
 
+	vhook.Event("rq.send", "q", pq, "id", int(packet.id), "try", tryCount, "force", force, "wasPending", pending)
 	pq.debug.Log("Sending packet with ID", packet.id, "try", tryCount)
 	go pq.socket.emit("", 0, false, true, packet.v...)
 }
